@@ -128,6 +128,22 @@ def check(rep, ctx):
             raise AnalysisError(f"plan of {key} not understood: {err.get('msg')}")
         rep.check(R_P, plan is not None and not err, construct=key, stmt=str(err),
                   message=f"plan building fails: {err}" if err else "no plan", **loc(S, c))
+    from .wire import spec_tagged_default_term
+    R_TD = rep.rule("C13-tagged-default", "the default resolved for a tagged field is the one its description implies (explicit default, "
+                    "zero value, nested members' declared defaults)", floor=50)
+    for key in sorted(S.classes):
+        c = S.classes[key]
+        plan = bundle["classes"].get(key) or {}
+        for f in c["fields"]:
+            if "tag" not in (f.get("metadata") or {}):
+                continue
+            want = spec_tagged_default_term(ctx, key, f["name"])
+            rec = next((t for t in (plan.get("tagged") or {}).values() if t.get("name") == f["name"]), None)
+            if want is None or rec is None or not isinstance(rec.get("r_default"), dict) or "term" not in rec["r_default"]:
+                continue
+            rep.check(R_TD, rec["r_default"]["term"] == want, construct=f"{key}.{f['name']}", stmt=f"resolved default {rec['r_default']['term']}",
+                      message=f"the serializer resolves the tagged default to {rec['r_default']['term']} but the description implies {want}",
+                      **loc(S, c, f))
     rep.sample({"rule": "C13-default", "field": "kio.schema.fetch.v15.request:FetchRequest.replica_state",
                 "default": "ReplicaState()", "declared": "ReplicaState"})
     rep.extra.update(classes=len(S.classes), fields=sum(len(c["fields"]) for c in S.classes.values()),
